@@ -6,75 +6,39 @@ use crate::spec::*;
 use crate::sym;
 use crate::zobrist::ZobristTable;
 
-// ------------------------------------------------------------------------------------------ C11
-macro_rules! k8 { () => { [sym::u64(), sym::u64(), sym::u64(), sym::u64(), sym::u64(), sym::u64(), sym::u64(), sym::u64()] }; }
-fn k64() -> [u64; 64] {
-    let a: [[u64; 8]; 8] = [k8!(), k8!(), k8!(), k8!(), k8!(), k8!(), k8!(), k8!()];
-    unsafe { core::mem::transmute(a) }
-}
-/// Every key set the start-up draw can produce: 768 + 1 + 4 + 64 arbitrary 64-bit keys.
-pub fn any_zobrist() -> ZobristTable {
-    let tk = [[k64(), k64(), k64(), k64(), k64(), k64()], [k64(), k64(), k64(), k64(), k64(), k64()]];
-    crate::zobrist::vh::from_keys(tk, sym::u64(), [[sym::u64(), sym::u64()], [sym::u64(), sym::u64()]], k64())
-}
-/// Independent reference: XOR over the features present, square by square.
-fn ref_hash(z: &ZobristTable, p: &Pos) -> u64 {
-    use crate::zobrist::vh::*;
-    let mut h = 0u64;
-    macro_rules! sq { ($s:expr) => { {
-        let b = bit($s);
-        macro_rules! layer { ($c:expr, $t:expr) => { if p.col[$c] & p.pc[$t] & b != 0 { h ^= piece_key(z, $c, $t, $s as usize); } }; }
-        layer!(0, 0); layer!(0, 1); layer!(0, 2); layer!(0, 3); layer!(0, 4); layer!(0, 5);
-        layer!(1, 0); layer!(1, 1); layer!(1, 2); layer!(1, 3); layer!(1, 4); layer!(1, 5);
-    } }; }
-    macro_rules! row { ($r:expr) => { sq!($r * 8); sq!($r * 8 + 1); sq!($r * 8 + 2); sq!($r * 8 + 3); sq!($r * 8 + 4); sq!($r * 8 + 5); sq!($r * 8 + 6); sq!($r * 8 + 7); }; }
-    row!(0u8); row!(1u8); row!(2u8); row!(3u8); row!(4u8); row!(5u8); row!(6u8); row!(7u8);
-    if p.cr[0] { h ^= castle_key(z, 0, 0); } if p.cr[1] { h ^= castle_key(z, 0, 1); }
-    if p.cr[2] { h ^= castle_key(z, 1, 0); } if p.cr[3] { h ^= castle_key(z, 1, 1); }
-    if p.ep < 64 { h ^= ep_key(z, p.ep as usize); }
-    if p.stm == 0 { h ^= stm_key(z); }
-    h
-}
-/// hash(b) == XOR of the keys of the features present, for every key set and every board with two
-/// kings and at most `extra` further men (any kinds, colours, squares), any side to move, rights and
-/// en-passant square.  Everything in the property follows from this one equation: no dependence on
-/// counters or history, a single-feature change flips exactly that feature's key, every feature has
-/// its own table cell.  (Full-width boards were tried first: the XOR-reordering proof did not finish.)
-fn hash_is_feature_xor(extra: usize) {
-    let z = any_zobrist();
-    let (b, men) = small_board_men(extra);
-    let p = from_board(&b);
-    let h = z.hash(&b);
-    // reference: one key per man present, one per right held, the ep square's, the side-to-move key for white
-    let mut want = 0u64;
-    {
-        use crate::zobrist::vh::*;
-        macro_rules! man { ($i:expr) => { if men[$i].0 { want ^= piece_key(&z, men[$i].1, men[$i].2, men[$i].3 as usize); } }; }
-        man!(0); man!(1); man!(2); man!(3); man!(4); man!(5); man!(6); man!(7);
-        if p.cr[0] { want ^= castle_key(&z, 0, 0); } if p.cr[1] { want ^= castle_key(&z, 0, 1); }
-        if p.cr[2] { want ^= castle_key(&z, 1, 0); } if p.cr[3] { want ^= castle_key(&z, 1, 1); }
-        if p.ep < 64 { want ^= ep_key(&z, p.ep as usize); }
-        if p.stm == 0 { want ^= stm_key(&z); }
-    }
-    vassert!(h == want, "C11: hash is not the XOR of the keys of the position's features");
-    if sym::native() { vassert!(h == ref_hash(&z, &p), "C11: hash is not the XOR of the keys of the position's features (square-by-square reference)"); }
-    // counters have no influence (same placement and flags, other counters)
-    let mut b2 = b;
-    b2.halfmove_clock = sym::u8() as _; b2.fullmove_counter = sym::u8() as _;
-    vassert!(z.hash(&b2) == h, "C11: hash depends on the move counters");
-    vcover!(p.ep < 64 && p.cr[3] && p.stm == 1, "ep square, black queen-side right, black to move");
-    vcover!(occ(&p).count_ones() == 2 + extra as u32, "all men present");
+// ------------------------------------------------------------------------------------------ C11 (layout independent)
+/// No two different features share a key.  Uses only ZobristTable::new() (through the rand model) and hash(): the
+/// draws are the concrete sequence 1, 2, 3, ... (pairwise different), so two single-feature boards hash equally iff
+/// their features read the same key cell - and a shared cell makes every pair of positions that differ in exactly
+/// those two features collide under EVERY key set.  Features f != g are symbolic (man x colour x square, castling
+/// right, en-passant square, white to move).
+fn no_shared_key(with_men: bool) {
+    use crate::randf::RF;
+    let (f, g) = (any_feature(), any_feature());
+    sym::assume(f != g);
+    // without men the placement is the concrete empty board: only the flag part of hash() stays symbolic (seconds);
+    // with men the 12 layer loops run on symbolic bitboards under the unwinding bound of 66 that new() needs (28 M clauses)
+    if !with_men { sym::assume(f.kind != 0 && g.kind != 0); }
+    vnote!("features", "f=({},{},{},{}) g=({},{},{},{}) (kind 0 man: colour, kind, square; 1 right: colour, side; 2 ep square; 3 white to move)", f.kind, f.c, f.t, f.s, g.kind, g.c, g.t, g.s);
+    unsafe { RF.mode = 3; RF.n = 0; }
+    let z = ZobristTable::new();
+    unsafe { RF.mode = 0; }
+    let (bf, bg) = if with_men { (feature_board(f), feature_board(g)) } else { (flag_board(f), flag_board(g)) };
+    let (hf, hg) = (z.hash(&bf), z.hash(&bg));
+    vassert!(hf != 0 && hg != 0, "C11: a feature does not contribute to the hash at all");
+    vassert!(hf != hg, "C11: two different features share a key (positions differing in exactly those two features collide for every key set)");
+    vcover!(f.kind == 1 && g.kind == 1, "two castling rights");
+    if with_men { vcover!(f.kind == 0 && g.kind == 2 && f.s == g.s, "a man and the en-passant key of the same square"); }
     core::mem::forget(z);
 }
-macro_rules! hash_harness { ($name:ident, $n:literal, $unw:literal) => {
-    #[cfg_attr(kani, kani::proof)]
-    #[cfg_attr(kani, kani::unwind($unw))]
-    pub fn $name() { hash_is_feature_xor($n); }
-}; }
-hash_harness!(c11_hash_formula_2men, 0, 8);
-hash_harness!(c11_hash_formula_3men, 1, 8);
-hash_harness!(c11_hash_formula_4men, 2, 8);
-hash_harness!(c11_hash_formula_6men, 4, 8);
+/// castling rights, en-passant squares, side to move (69 features, all pairs)
+#[cfg_attr(kani, kani::proof)]
+#[cfg_attr(kani, kani::unwind(66))]
+pub fn c11_no_shared_key_flags() { no_shared_key(false); }
+/// all 837 features incl. every man x colour x square (thorough)
+#[cfg_attr(kani, kani::proof)]
+#[cfg_attr(kani, kani::unwind(66))]
+pub fn c11_no_shared_key_all() { no_shared_key(true); }
 
 /// NOT REGISTERED in any check: symbolic execution did not finish in 48 min (two constructions with 837 draws each
 /// under the unwinding bound of 66 that `new()` needs).  Kept as the sketch of a representation-independent companion
@@ -91,10 +55,21 @@ fn any_feature() -> Feature {
     sym::assume(kind == 0 || kind == 2 || s == 0); sym::assume(kind <= 1 || c == 0);
     Feature { kind, c, t, s }
 }
+/// board of a flag feature (castling right, en-passant square, side to move) on the LITERALLY empty placement
+fn flag_board(f: Feature) -> Board {
+    let r = |c: u8, t: u8| f.kind == 1 && f.c == c && f.t == t;
+    let mut b = Board::default();
+    b.position = crate::board::vh::position_from_raw([0; 6], [0; 2]);
+    b.active_color = if f.kind == 3 { Color::White } else { Color::Black };
+    b.castling_ability = Castle::new(r(0, 0), r(0, 1), r(1, 0), r(1, 1));
+    b.en_passant_target = if f.kind == 2 { Some(f.s) } else { None };
+    b
+}
 fn feature_board(f: Feature) -> Board {
     let mut pc = [0u64; 6]; let mut col = [0u64; 2];
     if f.kind == 0 { pc[f.t as usize] = bit(f.s); col[f.c as usize] = bit(f.s); }
     let r = |c: u8, t: u8| f.kind == 1 && f.c == c && f.t == t;
+    // (for flag features pc/col stay the literal zero arrays: CBMC folds the piece loops away)
     let mut b = Board::default();
     b.position = crate::board::vh::position_from_raw(pc, col);
     b.active_color = if f.kind == 3 { Color::White } else { Color::Black };
